@@ -12,7 +12,7 @@ From SC.Model Require Import Base Num NumF64 FloatIO Types Config Case Chrono Ui
      Rules Format Lexer Api Run64 Corr.
 From SC.Spec Require Import Calendar Duration.
 From SC.Gen Require Import RustConsts ConfigData Regexes.
-From SC.Proofs Require Import C10 C13.
+From SC.Proofs Require Import C08 C10 C13.
 Local Open Scope Z_scope.
 
 (* ================================================================ 0. the end-to-end notion *)
@@ -488,12 +488,22 @@ Proof.
   unfold reread_part. cbn [fst snd].
   destruct k; try (apply parse_units; [reflexivity|discriminate|unfold in_range; lia]).
   (* months *)
-  specialize (Hm c Hin). cbn [kind_const]. rewrite parse_month; [|lia|unfold in_range; rewrite DUR_MAX_val; lia].
-  rewrite Z.div_small by lia. rewrite Z.mod_small by lia. f_equal. lia.
+  specialize (Hm c Hin). cbn [kind_const]. rewrite parse_month by (first [lia | unfold in_range; rewrite DUR_MAX_val; lia]).
+  rewrite Z.div_small by lia. rewrite Z.mod_small by lia. f_equal; lia.
 Qed.
 
 Section Combine.
 Context {F : Type} {NF : Num F}.
+Lemma forall2_reread (tis : list (token_info F)) ps :
+  Forall (fun p => reread_part p = Some (part_secs p)) ps ->
+  Forall2 (fun ti p => exists d, reread_part p = Some d /\ ti_ty ti = Some (TDuration d)) tis ps ->
+  Forall2 (fun ti d => ti_ty ti = Some (TDuration d)) tis (map part_secs ps).
+Proof.
+  intros Hre Hf. induction Hf as [|ti p tis' ps' [d [Hd Ht]] _ IH]; cbn [map]; constructor.
+  - inversion Hre as [|? ? Hp _]; subst. rewrite Hp in Hd. inversion Hd; subst. exact Ht.
+  - apply IH. inversion Hre; assumption.
+Qed.
+
 (* ... and the combine rule on the re-read parts (two or more) gives back the magnitude *)
 Theorem duration_recombine : forall (vs : vars F) secs tis, in_range secs ->
   (forall c, In (DMonth, c) (dur_parts secs) -> c < 12) ->
@@ -502,10 +512,7 @@ Theorem duration_recombine : forall (vs : vars F) secs tis, in_range secs ->
   combine_durations vs (dur_fields tis) = Ok (Some (TDuration (Z.abs secs))).
 Proof.
   intros vs secs tis Hr Hm Hf Hlen. destruct (duration_parts_reread secs Hr Hm) as [Hre Hs].
-  assert (Hf' : Forall2 (fun ti d => ti_ty ti = Some (TDuration d)) tis (map part_secs (dur_parts secs))).
-  { revert Hre. induction Hf as [|ti p tis ps [d [Hd Ht]] _ IH]; intro Hre; cbn [map]; constructor.
-    - inversion Hre as [|? ? Hp _]; subst. rewrite Hp in Hd. inversion Hd; subst. exact Ht.
-    - apply IH. inversion Hre; assumption. }
+  pose proof (forall2_reread tis _ Hre Hf) as Hf'.
   rewrite (additive_combine_exact vs tis _ Hf' Hlen).
   destruct (greedy_shape secs) as [Hok _].
   assert (Hnn : Forall (fun d => 0 <= d) (map part_secs (dur_parts secs))).
@@ -561,4 +568,335 @@ Proof.
     + intros [c [[E'|Hin] Hc]]; [discriminate|]. exists c. split; assumption.
     + intros [c [Hin Hc]]. exists c. split; [right; exact Hin|exact Hc].
   - rewrite (Z.mod_small d YEAR) by lia. apply Hrem. exact Hd.
+Qed.
+
+(* ================================================================ 5. whole-pipeline families *)
+(* representative values of every kind; each line prints a value whose text prints itself again *)
+Definition en_family : list str :=
+  map s ["0"; "7"; "-7"; "999"; "1000"; "1234,5"; "-1234,5"; "1234567,891"; "-1234567,891"; "0,5"; "0,05"; "0,005"; "0,004";
+         "99,995"; "999999,995"; "123456789012"; "1000000 * 1000000 * 1000"; "1/3"; "2/3"; "10/4"; "0 - 1/3"; "1M"; "2,5k";
+         "10%"; "12,5%"; "-5%"; "1234,5%"; "%50"; "0,5%"; "1234567%";
+         "10 usd"; "1234,5 usd"; "-10 usd"; "$10"; "10 $"; "10 dollar"; "10 eur"; "10 euro"; "1234567,891 eur"; "10 try"; "10 tl";
+         "10 dkk"; "10 kr"; "10 kroner"; "10 mvr"; "10 tjs"; "10 usd to try"; "10% on 50 usd";
+         "1 second"; "2 seconds"; "1 minute"; "45 minutes"; "1 hour"; "3 hours 5 minutes"; "1 day"; "6 days"; "1 week"; "4 weeks";
+         "1 month"; "11 months"; "13 months"; "1 year"; "30 years";
+         "1 year 1 month 1 week 1 day 1 hour 1 minute 1 second"; "2 years 3 months 2 weeks 4 days 5 hours 6 minutes 7 seconds";
+         "1 day - 3 days"; "100 days"; "1000000 seconds"; "400 days + 5 hours"; "12:30 to 14:45";
+         "12:30"; "0:00"; "23:59:59"; "11:30 pm"; "12:00 am"; "7:05:09"; "12:30 EST"; "12:30 GMT+3"; "12:30 GMT-5";
+         "9:15 GMT+05:30"; "10:00 EST + 90 minutes"; "23:30 EST to UTC";
+         "5 feb 2020"; "5 february"; "17 august"; "31 dec 1999"; "1 jan 2035"; "today"; "tomorrow"; "yesterday";
+         "5 feb 2020 + 3 weeks"; "1/2/2021"; "5 feb 999"; "5 feb 10000";
+         "10 km"; "1234,5 km"; "-3 kg"; "0,25 inch"; "1 mb"; "1,5 kb"; "1500 kb"; "3 bit"; "1 km to m"; "1 inch to mm";
+         "5 mb to kb"; "3 km + 500 m"; "1 tb to byte";
+         "255 to hex"; "8 to octal"; "5 to binary"; "0xFF"; "0o17"; "0b101"; "0 to hex"; "4096 to hex"; "1000000 to hex";
+         "4611686018427387904 to hex"; "65535 to binary"; "511 to octal"; "0xff + 1"; "0b11 * 0b10"; "2,5 to hex";
+         "0x7FFFFFFFFFFFFFFF"; "0xDEADBEEF"; "0X1F"; "16 hex"; "0xFF to decimal"]%string.
+
+Definition tr_family : list str :=
+  [[49;50;51;52;44;53]%N (* 1234,5 *);
+   [45;49;50;51;52;44;53]%N (* -1234,5 *);
+   [49;50;51;52;53;54;55;44;56;57;49]%N (* 1234567,891 *);
+   [49;47;51]%N (* 1/3 *);
+   [49;48;37]%N (* 10% *);
+   [49;50;44;53;37]%N (* 12,5% *);
+   [49;48;32;117;115;100]%N (* 10 usd *);
+   [49;48;32;116;114;121]%N (* 10 try *);
+   [49;48;32;101;117;114]%N (* 10 eur *);
+   [49;50;51;52;44;53;32;100;107;107]%N (* 1234,5 dkk *);
+   [51;32;115;97;97;116;32;53;32;100;97;107;105;107;97]%N (* 3 saat 5 dakika *);
+   [49;32;121;305;108;32;50;32;97;121;32;49;32;104;97;102;116;97;32;51;32;103;252;110;32;52;32;115;97;97;116;32;53;32;100;97;107;105;107;97;32;54;32;115;97;110;105;121;101]%N
+     (* 1 yil 2 ay 1 hafta 3 gun 4 saat 5 dakika 6 saniye, dotless i / u-umlaut spellings *);
+   [50;32;121;105;108]%N (* 2 yil *);
+   [52;53;32;115;97;110;105;121;101]%N (* 45 saniye *);
+   [49;32;103;252;110]%N (* 1 gun (u-umlaut) *);
+   [53;32;351;117;98;97;116;32;50;48;50;48]%N (* 5 subat 2020 (s-cedilla) *);
+   [53;32;351;117;98;97;116]%N (* 5 subat *);
+   [49;55;32;97;287;117;115;116;111;115]%N (* 17 agustos (g-breve) *);
+   [49;32;111;99;97;107;32;49;57;57;57]%N (* 1 ocak 1999 *);
+   [55;32;97;114;97;108;305;107;32;50;48;50;49]%N (* 7 aralik 2021 (dotless i) *);
+   [98;117;103;252;110]%N (* bugun *);
+   [121;97;114;305;110]%N (* yarin *);
+   [100;252;110]%N (* dun *);
+   [49;48;32;107;109]%N (* 10 km *);
+   [49;50;51;52;44;53;32;107;103]%N (* 1234,5 kg *);
+   [49;32;109;98]%N (* 1 mb *);
+   [48;120;70;70]%N (* 0xFF *);
+   [48;98;49;48;49]%N (* 0b101 *);
+   [48;111;49;55]%N (* 0o17 *);
+   [53;32;351;117;98;97;116;32;50;48;50;48;32;43;32;51;32;104;97;102;116;97]%N (* 5 subat 2020 + 3 hafta *);
+   [49;48;48;32;103;252;110]%N (* 100 gun *)].
+
+(* the same values under the other lexable separator conventions and digit settings *)
+Definition sep_family (d : string) : list str :=
+  map (fun x => replace_all (s "#") (s d) (s x))
+      ["1234#5"; "-1234#5"; "1234567#891"; "0#5"; "1/3"; "1M"; "12#5%"; "1234#5%"; "1234#5 usd"; "1234567#891 eur"; "10 try";
+       "1234#5 dkk"; "1234#5 km"; "1234567 kb"; "1234567 seconds"; "255 to hex"; "12:30"; "5 feb 2020"]%string.
+
+Definition digit_family : list str :=
+  map s ["1234,5"; "1/3"; "0,1 + 0,2"; "1234567,891"; "0 - 2/3"; "5"; "0,000001"; "123456,789 * 1000"; "12,345%"; "1234,5678%"]%string.
+
+Definition digit_settings : list (N * bool * bool) :=
+  [(0, true, true); (0, false, true); (1, false, true); (3, true, true); (3, false, true); (5, true, true);
+   (9, false, true); (2, true, false); (2, false, false); (4, false, false)]%N.
+
+Lemma families_ok :
+  forallb (reprints CK15 DC EN) en_family = true /\
+  forallb (reprints CK15 DC TR) tr_family = true /\
+  forallb (reprints CK15 (cfg_seps (s ".") (s ",")) EN) (sep_family ".") = true /\
+  forallb (reprints CK15 (cfg_seps (s ".") []) EN) (sep_family ".") = true /\
+  forallb (reprints CK15 (cfg_seps (s ",") []) EN) (sep_family ",") = true /\
+  forallb (fun st => let '(n, rm, rnd) := st in
+             forallb (reprints CK15 (cfg_num DC n rm rnd) EN) digit_family) digit_settings = true.
+Proof. vm_compute. repeat split; reflexivity. Qed.
+
+Lemma families_sizes :
+  length en_family = 127%nat /\ length tr_family = 31%nat /\ length (sep_family ".") = 18%nat /\
+  length digit_family = 10%nat /\ length digit_settings = 10%nat.
+Proof. vm_compute. repeat split; reflexivity. Qed.
+
+(* ---- the known findings, each through the model's pipeline: the line prints a value and the printed text does
+        not print itself again *)
+Definition tr_time_cfg := DC.
+Definition refuted_rows : list (config float * str * str * str) :=
+  [ (DC, EN, s "-0,004", s "-0")                                           (* C15-K1 negative zero *)
+  ; (DC, EN, s "-0,004%", s "%-0")
+  ; (cfg_seps (s ",") (s " "), EN, s "1234,5", s "1 234,50")                (* C15-K2 separator outside [.,] *)
+  ; (cfg_seps (s ".") (s "'"), EN, s "1234.5", s "1'234.50")
+  ; (DC, EN, s "10 gbp", [163;49;48;44;48;48]%N)                            (* C15-K3 symbol no reader name: GBP *)
+  ; (DC, EN, s "10 chf", s "CHF 10,00")
+  ; (DC, EN, s "10 bgn", [49;48;44;48;48;32;1083;1074;46]%N)                (* BGN: configured alias, not lexable *)
+  ; (DC, EN, s "10 sek", s "10,00 kr")                                      (* C15-K4 symbol names DKK *)
+  ; (DC, EN, s "10 hkd", s "HK$10,00")
+  ; (DC, EN, s "1 day - 1 day", [])                                         (* C15-K5 zero duration *)
+  ; (DC, EN, s "364 days", s "12 months 4 days")                            (* C15-K6 twelve months *)
+  ; (DC, TR, s "12:30", s "12:30:00 UTC")                                   (* C15-K7 tr: time and zone not joined *)
+  ; (DC, EN, s "1600000000 to date", s "13 Sep 2020 12:26:40 UTC")          (* C15-K8 date-time *)
+  ; (DC, EN, s "5 feb 2020 at 12:30", s "5 Feb 2020 12:30:00 UTC")
+  ; (DC, EN, s "5 feb 2020 to unix", s "1580860800")                        (* C15-K9 raw timestamp *)
+  ; (DC, EN, s "205 to hex", s "0xCD") ].                                   (* C15-K10 hex digits spell a currency *)
+
+Definition refuted_row_ok (r : config float * str * str * str) : bool :=
+  let '(cfg, lang, line, out) := r in
+  match enter CK15 cfg lang line with Some (o, _) => str_eqb o out | None => false end && refutes CK15 cfg lang line.
+
+Lemma refuted_rows_ok : forallb refuted_row_ok refuted_rows = true.
+Proof. vm_compute. reflexivity. Qed.
+
+Lemma refuted : forall cfg lang line out, In (cfg, lang, line, out) refuted_rows ->
+  (exists v, enter CK15 cfg lang line = Some (out, v)) /\ ~ Reprintable CK15 cfg lang line.
+Proof.
+  intros cfg lang line out Hin. pose proof refuted_rows_ok as H. rewrite forallb_forall in H.
+  specialize (H _ Hin). unfold refuted_row_ok in H. apply andb_prop in H. destruct H as [H1 H2]. split.
+  - destruct (enter CK15 cfg lang line) as [[o v]|]; [|discriminate]. apply str_eqb_eq in H1. subst o. exists v. reflexivity.
+  - apply refutes_sound. exact H2.
+Qed.
+
+(* what the re-entered texts of the witnesses print instead *)
+Lemma refuted_outputs :
+  option_map fst (enter CK15 DC EN (s "-0")) = Some (s "0") /\
+  option_map fst (enter CK15 (cfg_seps (s ",") (s " ")) EN (s "1 234,50")) = Some (s "235,50") /\
+  option_map fst (enter CK15 DC EN [163;49;48;44;48;48]%N) = Some (s "0") /\
+  option_map fst (enter CK15 DC EN (s "10,00 kr")) = Some (s "10,00 kr.") /\
+  enter CK15 DC EN [] = None /\
+  option_map fst (enter CK15 DC EN (s "12 months 4 days")) = Some (s "1 year 4 days") /\
+  enter CK15 DC TR (s "12:30:00 UTC") = None /\
+  enter CK15 DC EN (s "13 Sep 2020 12:26:40 UTC") = None /\
+  option_map fst (enter CK15 DC EN (s "1580860800")) = Some (s "1.580.860.800") /\
+  option_map fst (enter CK15 DC EN (s "0xCD")) = Some (s "$0,00").
+Proof. vm_compute. repeat split; reflexivity. Qed.
+
+(* ================================================================ 6. the full statement and what is proved *)
+(* the property in full: for EVERY configuration, language, clock and line *)
+Definition C15_full : Prop := forall ck cfg lang line, Reprintable ck cfg lang line.
+
+(* it does not hold (16 witnesses, 10 mechanisms) ... *)
+Lemma full_refuted : ~ C15_full.
+Proof.
+  intro H. destruct (refuted DC EN (s "-0,004") (s "-0")) as [_ Hn]; [left; reflexivity|]. apply Hn. apply H.
+Qed.
+
+(* ... what is proved end to end is Reprintable at the clock CK15 on the stated finite families (the value behind the
+   re-entered text is the printed, i.e. rounded, value: `1/3` prints 0,33 and 0,33 prints 0,33) *)
+Lemma families_reprintable :
+  (forall l, In l en_family -> Reprintable CK15 DC EN l /\ prints CK15 DC EN l = true) /\
+  (forall l, In l tr_family -> Reprintable CK15 DC TR l /\ prints CK15 DC TR l = true) /\
+  (forall l, In l (sep_family ".") -> Reprintable CK15 (cfg_seps (s ".") (s ",")) EN l /\
+                                      Reprintable CK15 (cfg_seps (s ".") []) EN l) /\
+  (forall l, In l (sep_family ",") -> Reprintable CK15 (cfg_seps (s ",") []) EN l) /\
+  (forall n rm rnd l, In (n, rm, rnd) digit_settings -> In l digit_family ->
+     Reprintable CK15 (cfg_num DC n rm rnd) EN l).
+Proof.
+  destruct families_ok as [H1 [H2 [H3 [H4 [H5 H6]]]]].
+  rewrite forallb_forall in H1, H2, H3, H4, H5, H6.
+  split; [|split; [|split; [|split]]].
+  - intros l Hl. destruct (reprints_sound _ _ _ _ (H1 l Hl)). split; assumption.
+  - intros l Hl. destruct (reprints_sound _ _ _ _ (H2 l Hl)). split; assumption.
+  - intros l Hl. split; [apply (reprints_sound _ _ _ _ (H3 l Hl))|apply (reprints_sound _ _ _ _ (H4 l Hl))].
+  - intros l Hl. apply (reprints_sound _ _ _ _ (H5 l Hl)).
+  - intros n rm rnd l Hs Hl. specialize (H6 _ Hs). cbn beta iota in H6. rewrite forallb_forall in H6.
+    apply (reprints_sound _ _ _ _ (H6 l Hl)).
+Qed.
+
+Lemma unit_lines_reprintable :
+  (forall l, In l (unit_lines (s ",")) ->
+     Reprintable_value CK15 DC EN l /\ is_unit (enter CK15 DC EN l) = true) /\
+  (forall l, In l (unit_lines (s ".")) ->
+     Reprintable_value CK15 (cfg_seps (s ".") (s ",")) EN l /\ Reprintable_value CK15 (cfg_seps (s ".") []) TR l) /\
+  (forall l, In l (unit_lines (s ",")) -> Reprintable_value CK15 (cfg_seps (s ",") []) TR l) /\
+  length (unit_lines (s ",")) = 61%nat.
+Proof.
+  destruct unit_lines_ok as [H1 [H2 [H3 [H4 H5]]]]. rewrite forallb_forall in H1, H2, H3, H4.
+  split; [|split; [|split; [|exact H5]]].
+  - intros l Hl. specialize (H1 l Hl). apply andb_prop in H1. destruct H1 as [Ha Hb].
+    split; [apply (reprints_value_sound _ _ _ _ Ha)|exact Hb].
+  - intros l Hl. split; [apply (reprints_value_sound _ _ _ _ (H2 l Hl))|apply (reprints_value_sound _ _ _ _ (H3 l Hl))].
+  - intros l Hl. apply (reprints_value_sound _ _ _ _ (H4 l Hl)).
+Qed.
+
+Lemma full_partial : ~ C15_full /\
+  (forall l, In l en_family -> Reprintable CK15 DC EN l /\ prints CK15 DC EN l = true) /\
+  (forall l, In l tr_family -> Reprintable CK15 DC TR l /\ prints CK15 DC TR l = true).
+Proof.
+  split; [exact full_refuted|]. destruct families_reprintable as [H1 [H2 _]]. split; assumption.
+Qed.
+
+(* ================================================================ 4. numbers *)
+Section Number.
+Context {F : Type} {NF : Num F}.
+
+Lemma find_index_dot ip fp : free 46%N ip -> find_index (N.eqb 46) (ip ++ 46%N :: fp) = Some (length ip).
+Proof.
+  induction 1 as [|c r Hc _ IH]; cbn [app find_index length]; [reflexivity|].
+  destruct (N.eqb_spec 46 c) as [E|_]; [congruence|]. rewrite IH. reflexivity.
+Qed.
+
+Lemma find_index_none ip : free 46%N ip -> find_index (N.eqb 46) ip = None.
+Proof.
+  induction 1 as [|c r Hc _ IH]; cbn [find_index]; [reflexivity|].
+  destruct (N.eqb_spec 46 c) as [E|_]; [congruence|]. rewrite IH. reflexivity.
+Qed.
+
+Lemma firstn_len_app {A} (a b : list A) : firstn (length a) (a ++ b) = a.
+Proof. induction a; cbn; [destruct b; reflexivity|f_equal; assumption]. Qed.
+Lemma skipn_S_len_app {A} (a : list A) x b : skipn (S (length a)) (a ++ x :: b) = b.
+Proof. induction a; cbn [length app skipn]; [reflexivity|assumption]. Qed.
+
+(* the grouping loop inserts nothing but the separator: removing the separator character gives the digits back,
+   and a character that is neither a digit of [ds] nor the separator does not occur *)
+Lemma group_loop_remove t ds : free t ds -> forall i n dot,
+  subst1 t [] (group_loop ds i n dot [t]) = ds.
+Proof.
+  induction 1 as [|c r Hc _ IH]; intros i n dot; cbn [group_loop]; [reflexivity|].
+  change (c :: ?x) with ([c] ++ x). rewrite !subst1_app. rewrite (subst1_free t [] [c]) by (constructor; [exact Hc|constructor]).
+  rewrite IH. destruct (negb (Nat.eqb n (S i)) && Nat.eqb (Nat.modulo (S dot) 3) 0); [rewrite subst1_hit|]; reflexivity.
+Qed.
+
+Lemma group_loop_nosep ds : forall i n dot, group_loop ds i n dot [] = ds.
+Proof.
+  induction ds as [|c r IH]; intros i n dot; cbn [group_loop]; [reflexivity|].
+  rewrite IH. destruct (negb (Nat.eqb n (S i)) && Nat.eqb (Nat.modulo (S dot) 3) 0); reflexivity.
+Qed.
+
+Lemma group_loop_free d t ds : free d ds -> d <> t -> forall i n dot, free d (group_loop ds i n dot [t]).
+Proof.
+  induction 1 as [|c r Hc _ IH]; intros Hdt i n dot; cbn [group_loop]; [constructor|].
+  constructor; [exact Hc|]. apply free_app; [|apply IH; exact Hdt].
+  destruct (negb (Nat.eqb n (S i)) && Nat.eqb (Nat.modulo (S dot) 3) 0); [constructor; [congruence|constructor]|constructor].
+Qed.
+
+(* the thousands separator: none, or one character *)
+Definition tsep_of (t : option N) : str := match t with Some c => [c] | None => [] end.
+
+(* what format_number writes when the rendering of |x| is ip '.' fp (or ip alone): sign, grouped ip, fraction *)
+Definition printed (neg : bool) (t : option N) (d : N) (ip : str) (fp : option str) : str :=
+  (if neg then [45%N] else []) ++ group_loop ip 0 (length ip) (3 - Nat.modulo (length ip) 3) (tsep_of t)
+    ++ match fp with Some f => d :: f | None => [] end.
+
+Lemma format_number_shape (x : F) t d n rm (rnd : bool) ip fp :
+  (if rnd then ffixed (fabs x) n else fdisplay (fabs x)) = ip ++ match fp with Some f => 46%N :: f | None => [] end ->
+  free 46%N ip ->
+  format_number x (tsep_of t) [d] n rm rnd
+  = Ok (printed (fltb x f0) t d ip
+          (match fp with Some f => if negb (forallb (N.eqb 48) f) || negb rm then Some f else None | None => None end)).
+Proof.
+  intros Hst Hip. unfold format_number, printed. rewrite Hst. destruct fp as [f|].
+  - rewrite find_index_dot by exact Hip. rewrite firstn_len_app, skipn_S_len_app.
+    rewrite app_length. cbn [length]. replace (Nat.eqb (length ip) (length ip + S (length f))) with false
+      by (symmetry; apply Nat.eqb_neq; lia).
+    rewrite andb_true_r. destruct (negb (forallb (N.eqb 48) f) || negb rm); rewrite <- ?app_assoc, ?app_nil_r; reflexivity.
+  - rewrite app_nil_r. rewrite find_index_none by exact Hip. rewrite firstn_all.
+    rewrite Nat.eqb_refl, andb_false_r. rewrite app_nil_r. reflexivity.
+Qed.
+
+(* THE READER ON THE PRINTER'S OUTPUT, unbounded: all digit strings ip, fp, every one-character decimal separator
+   and every thousands separator that is one other character or absent (neither a digit nor '-'): the text
+   format_number writes is normalised by read_decimal to sign ip '.' fp - grouping and convention disappear *)
+Theorem printed_normalises (cfg : config F) neg t d ip fp :
+  cf_dsep cfg = [d] -> cf_tsep cfg = tsep_of t ->
+  free d ip -> free 45%N [d] -> match t with Some c => free c ip /\ c <> d /\ c <> 45%N /\ c <> 46%N /\
+                                                     match fp with Some f => free c f | None => True end
+                                        | None => True end ->
+  match fp with Some f => free d f | None => True end ->
+  read_decimal cfg (printed neg t d ip fp)
+  = fparse ((if neg then [45%N] else []) ++ ip ++ match fp with Some f => 46%N :: f | None => [] end).
+Proof.
+  intros Hd Ht Hdip Hd45 Htc Hdf. unfold read_decimal, printed. rewrite Hd, Ht. f_equal.
+  assert (Hd45' : d <> 45%N) by (inversion Hd45; congruence).
+  assert (Hsd : subst1 d [46%N] [45%N] = [45%N]) by (apply subst1_free; repeat constructor; congruence).
+  destruct t as [c|]; cbn [tsep_of].
+  - destruct Htc as [Hcip [Hcd [Hc45 [Hc46 Hcf]]]].
+    assert (Hsc : subst1 c [] [45%N] = [45%N]) by (apply subst1_free; repeat constructor; congruence).
+    assert (Hcdd : subst1 c [] [d] = [d]) by (apply subst1_free; repeat constructor; congruence).
+    rewrite (replace_all_single c). rewrite (replace_all_single d).
+    destruct neg; destruct fp as [f|]; cbn [app]; try change (d :: f) with ([d] ++ f);
+      try change (45%N :: ?x) with ([45%N] ++ x);
+      rewrite ?subst1_app, ?group_loop_remove by exact Hcip; rewrite ?Hsc, ?Hcdd;
+      rewrite ?(subst1_free c [] f) by exact Hcf;
+      rewrite ?subst1_app, ?Hsd, ?subst1_hit, ?(subst1_free d [46%N] ip) by exact Hdip;
+      rewrite ?(subst1_free d [46%N] f) by exact Hdf; rewrite ?app_nil_r; reflexivity.
+  - rewrite replace_all_nil_nil, group_loop_nosep. rewrite (replace_all_single d).
+    destruct neg; destruct fp as [f|]; cbn [app]; try change (d :: f) with ([d] ++ f);
+      try change (45%N :: ?x) with ([45%N] ++ x);
+      rewrite ?subst1_app, ?Hsd, ?subst1_hit, ?(subst1_free d [46%N] ip) by exact Hdip;
+      rewrite ?(subst1_free d [46%N] f) by exact Hdf; rewrite ?app_nil_r; reflexivity.
+Qed.
+
+(* format_number depends on the value only through its sign test and its rendering: a value that renders alike
+   prints alike - the last step of the round trip under the stated hypothesis *)
+Theorem format_number_same_rendering (x y : F) tsep dsep n rm (rnd : bool) :
+  fltb y f0 = fltb x f0 ->
+  (if rnd then ffixed (fabs y) n else fdisplay (fabs y)) = (if rnd then ffixed (fabs x) n else fdisplay (fabs x)) ->
+  format_number y tsep dsep n rm rnd = format_number x tsep dsep n rm rnd.
+Proof. intros Hs Hr. unfold format_number. rewrite Hs, Hr. reflexivity. Qed.
+
+End Number.
+
+(* binary64: the hypotheses of format_number_same_rendering for the value read back from the printed digits, on a
+   family of values x digit counts (by computation); they FAIL for a value below zero that rounds to zero (C15-K1) *)
+Definition idem64 (x : float) (n : N) : bool :=
+  match fparse (F:=float) ((if fltb x f0 then [45%N] else []) ++ ffixed (fabs x) n) with
+  | Some y => str_eqb (ffixed (fabs y) n) (ffixed (fabs x) n) && Bool.eqb (fltb y f0) (fltb x f0)
+  | None => false
+  end.
+
+Definition number_family : list float :=
+  map (fun p => f64_dec (fst p) (snd p))
+      [(0, 0); (7, 0); (-7, 0); (12345, 1); (-12345, 1); (1234567891, 3); (-1234567891, 3); (5, 1); (5, 2); (5, 3); (4, 3);
+       (99995, 3); (999999995, 3); (123456789012, 0); (333333333333, 12); (-666666666666, 12); (25, 1); (1, 6);
+       (30000000000000004, 17); (1000000000000000000, 0)].
+Definition number_digits : list N := [0; 1; 2; 3; 5; 9]%N.
+
+Lemma number_family_idempotent :
+  forallb (fun x => forallb (idem64 x) number_digits) number_family = true /\
+  idem64 (f64_dec (-4) 3) 2 = false.
+Proof. vm_compute. split; reflexivity. Qed.
+
+Lemma number_family_idem : forall x n, In x number_family -> In n number_digits ->
+  exists y, fparse (F:=float) ((if fltb x f0 then [45%N] else []) ++ ffixed (fabs x) n) = Some y /\
+            ffixed (fabs y) n = ffixed (fabs x) n /\ fltb y f0 = fltb x f0.
+Proof.
+  intros x n Hx Hn. destruct number_family_idempotent as [H _]. rewrite forallb_forall in H. specialize (H x Hx).
+  rewrite forallb_forall in H. specialize (H n Hn). unfold idem64 in H.
+  destruct (fparse _) as [y|]; [|discriminate]. apply andb_prop in H. destruct H as [H1 H2].
+  apply str_eqb_eq in H1. apply Bool.eqb_prop in H2. exists y. repeat split; assumption.
 Qed.
